@@ -11,6 +11,7 @@ mod o_compare;
 mod o_listops;
 mod o_globals;
 mod o_rename;
+mod o_reader;
 
 use std::panic;
 
@@ -31,6 +32,7 @@ fn oracles() -> Vec<(&'static str, Enumerate, Check)> {
         ("c22_make_query", o_globals::enum_make_query, o_globals::check_make_query),
         ("c10_counter", o_globals::enum_counter, o_globals::check_counter),
         ("c10_rename", o_rename::enum_rename, o_rename::check_rename),
+        ("c21_load", o_reader::enum_load, o_reader::check_load),
         ("c06_keeps", o_unify::enum_keeps, o_unify::check_keeps),
     ]
 }
